@@ -618,21 +618,33 @@ impl SeqSpec for TrieSpec {
     }
     fn apply(&self, st: &mut St, op: &Op) -> Result<(), Fail> {
         match op {
+            // a refusal leaves the model unchanged, but only the refusals the unchanged library makes as well are tolerated
+            // (label: operation, key length class, whether the key is a member)
             Op::Insert(k) => {
                 if st.trie.insert(k).is_ok() {
                     st.model.insert(k.clone());
+                } else {
+                    zverif::core::tolerate_refusal(&self.name(), &format!("insert/klen{}/member={}", if k.len() > 255 { ">255" } else if k.len() > 64 { ">64" } else { "<=64" }, st.model.contains(k)), &kname(k))?;
                 }
             }
-            Op::InsertId(k) => {
-                if let Some(Ok(())) = st.trie.insert_id(k) {
+            Op::InsertId(k) => match st.trie.insert_id(k) {
+                Some(Ok(())) => {
                     st.model.insert(k.clone());
                 }
-            }
-            Op::Remove(k) => {
-                if let Some(Ok(_)) = st.trie.remove(k) {
+                Some(Err(_)) => {
+                    zverif::core::tolerate_refusal(&self.name(), &format!("insert_id/klen{}/member={}", if k.len() > 255 { ">255" } else if k.len() > 64 { ">64" } else { "<=64" }, st.model.contains(k)), &kname(k))?;
+                }
+                None => {}
+            },
+            Op::Remove(k) => match st.trie.remove(k) {
+                Some(Ok(_)) => {
                     st.model.remove(k);
                 }
-            }
+                Some(Err(_)) => {
+                    zverif::core::tolerate_refusal(&self.name(), &format!("remove/member={}", st.model.contains(k)), &kname(k))?;
+                }
+                None => {}
+            },
             Op::CloneSwap => {
                 if let Some(c) = st.trie.clone_box() {
                     st.trie = c;
